@@ -1,6 +1,6 @@
 # C09 - awaitable queue: each item delivered exactly once, in order   (rules shared with C10)
 import re
-from ..core import norm, relloc, live, calls, evs, Broken, value_origin, Tracer, fmt_trace, rooted, has_back_edge, efield
+from ..core import norm, relloc, live, calls, evs, Broken, value_origin, Tracer, fmt_trace, rooted, has_back_edge, efield, pos
 from .. import locks
 from ..rules import *
 from .. import atomic
@@ -47,6 +47,139 @@ def run(ctx, db, tier):
     C02.sync_waits(ctx, db, 'C09.blocking-pop-waits')
     from . import C10
     C10.pop_refill(ctx, db, 'C09.limited-pop-delivers-and-readmits')
+
+
+def _peel(p):
+    """'!(!(x))' -> ('x', negated?)"""
+    p = p or ''; neg = False
+    while p.startswith('!(') and p.endswith(')') and p.count('(') == p.count(')'):
+        p = p[2:-1]; neg = not neg
+    return p, neg
+
+
+def select_outcomes(tr, upto=None):
+    """{condition text as written: truth value} of the conditional expressions (c ? a : b) evaluated on this trace before position upto.  The CFG
+    branches on the condition, evaluates the chosen arm (which may contain a nested conditional) and then reaches the `select` event of the
+    expression, so branches and select events pair like brackets; a pair whose texts do not agree is left out (unknown)"""
+    known = {}; stack = []
+    for it in (tr if upto is None else tr[:upto]):
+        if it.k == 'branch' and it.get('term') == 'ConditionalOperator':
+            stack.append(it)
+        elif it.k == 'select' and it.get('cond'):
+            while stack and (stack[-1].get('depth', 0) > it.get('depth', 0)):
+                stack.pop()
+            if not stack or stack[-1].get('depth', 0) != it.get('depth', 0) or stack[-1].get('fn') != it.get('fn'):
+                continue
+            br = stack.pop()
+            c, neg = _peel(it['cond'])
+            val = None
+            for p_, v_ in list((br.get('forms') or {}).items()) + [(br.get('opath'), br.get('oval', br.val)), (br.get('path'), br.val)]:
+                q, n2 = _peel(p_)
+                if p_ and q == c:
+                    val = (bool(v_) != n2) != neg
+            if val is not None:
+                known[it['cond']] = val
+    return known
+
+
+def select_value(tr, upto, expr):
+    """the arm a (nested) conditional expression took on this trace, None when a condition was not decided by a recognised branch"""
+    known = select_outcomes(tr, upto)
+    for _ in range(8):
+        m_ = re.fullmatch(r'(?:ctor|move|forward)\((\(.* \? .* : .*\))\)', expr or '')
+        if m_:
+            expr = m_.group(1)
+        sp = split_select(expr or '')
+        if not sp:
+            return expr
+        if sp[0] not in known:
+            return None
+        expr = sp[1] if known[sp[0]] else sp[2]
+    return None
+
+
+def feasible(trs):
+    """drop the traces that follow a `case` the switched value cannot have on that path: `const route r = a ? A : b ? B : C; switch (r)` - the
+    enumerator is fixed by the branches of the conditional expression, the path enumerator nevertheless walks every label from every path.
+    A value that is not decided on the path (or is no enumerator) keeps the trace."""
+    labels = {}
+    for tr in trs:
+        for it in tr:
+            if it.k == 'switch' and (it.get('label') or {}).get('kind') == 'case':
+                labels.setdefault((it.get('fn'), it.get('block'), it.get('depth', 0)), set()).add((it['label'].get('text'), it['label'].get('const')))
+    if not labels:
+        return trs
+    out = []
+    for tr in trs:
+        ok = True
+        for i, it in enumerate(tr):
+            if it.k != 'switch':
+                continue
+            expr = it.get('path') or ''
+            if re.fullmatch(r'local:\w+(#\d+)?', expr):
+                d = next((x for x in reversed(tr[:i]) if x.k == 'decl' and x.get('var') == expr), None)
+                if d is None or not d.get('init') or any(x.k == 'write' and x.get('path') == expr for x in tr[pos(tr, d):i]):
+                    continue
+                v = select_value(tr, pos(tr, d), d['init']) if split_select(d['init']) else None
+            else:
+                v = select_value(tr, i, expr) if split_select(expr) else None
+            if not v or not v.startswith('decl:'):
+                continue
+            cases = labels.get((it.get('fn'), it.get('block'), it.get('depth', 0)), set())
+            lab = it.get('label') or {}
+            if lab.get('kind') == 'case':
+                ok = ok and lab.get('text') == v
+            else:
+                ok = ok and all(t != v for t, _ in cases)
+        if ok:
+            out.append(tr)
+    return out
+
+
+def _class_type(t):
+    return re.sub(r'^(?:const\s+)?(?:struct|class)\s+', '', (t or '').strip())
+
+
+def callable_bodies(db, f, arg):
+    """the bodies a callable argument runs when it is invoked: the closure behind lambda@<key>, or - when the argument is an object of a class
+    of the library with call operators (a maintainer turned the lambda into a named functor) - those operators, in the instantiation the
+    argument's type names"""
+    p = arg.get('opath') or arg.get('path') or ''
+    m = re.search(r'lambda@(\S+?)\)*$', p)
+    if m:
+        return list(db.closure_instances(f, m.group(1)))
+    t = _class_type(arg.get('type'))
+    if not t or t.startswith('std::') or '(lambda at ' in t:
+        return []
+    idx = db.__dict__.get('_call_operators')
+    if idx is None:
+        # call operators of named classes of the library, by the instantiated class they belong to
+        idx = {}
+        for g in db.all_instances():
+            if not g.get('lambda') and g['nname'].startswith('cocls::') and g['nname'].endswith('::operator()') and (g.get('inst') or '').endswith('::operator()'):
+                idx.setdefault(g['inst'][:-len('::operator()')], []).append(g)
+        db.__dict__['_call_operators'] = idx
+    if t in idx:
+        return list(idx[t])
+    # the type as written may lack the enclosing scopes (event_visitor<false> for cocls::scheduler::event_visitor<false>)
+    cands = [k for k in idx if k.endswith('::' + t)]
+    return list(idx[cands[0]]) if len(cands) == 1 else []
+
+
+def initializer_bodies(db, name):
+    """the code that runs when the future returned by `name` is constructed: the lambdas defined in `name`, and the call operators of functor
+    objects `name` hands to the future's constructor"""
+    out = list(lambdas_of(db, name)); seen = {(g['key'], g.get('inst')) for g in out}
+    for f in db.fns(name):
+        for e in f.events():
+            if e.k == 'construct' and norm(e.get('callee')) == 'cocls::future::future':
+                for a in e.get('args', []):
+                    if (a.get('opath') or a.get('path') or '').startswith('lambda@'):
+                        continue
+                    for g in callable_bodies(db, f, a):
+                        if (g['key'], g.get('inst')) not in seen:
+                            seen.add((g['key'], g.get('inst'))); out.append(g)
+    return out
 
 
 def _root_origin(f, x, depth=8):
@@ -105,7 +238,7 @@ def push_linear(ctx, db, rid, name):
     ctx.rule(rid, 'COUNT', 'queue::push: on every path the forwarded item reaches exactly one sink: the promise of the oldest waiting pop (obtained by front() then exactly one pop() '
              'of the waiter queue, only on its non-empty edge) or emplace into the item queue (only on the edge where no pop waits)', floor=1)
     for f, trs in traces_of(db, name, depth=0, per_instance=True):
-        trs = [t for t in trs if live(t)]
+        trs = feasible([t for t in trs if live(t)])
         ctx.paths(rid, len(trs))
         bad = None; nh = ne = 0
         for tr in trs:
@@ -141,12 +274,12 @@ def push_linear(ctx, db, rid, name):
 def pop_linear(ctx, db, rid, name, refill=False):
     ctx.rule(rid, 'COUNT+ORDER', 'queue::pop (the lambda run by the future\'s constructor): on the empty edge the promise is parked in the waiter queue and nothing else; otherwise it is '
              'resolved exactly once (from front() for non-void T) and exactly one item is removed by pop() afterwards', floor=1)
-    lams = lambdas_of(db, name)
+    lams = initializer_bodies(db, name)
     if not lams:
         raise Broken('anchor vanished: lambda of ' + name)
     T = htracer(db)
     for lf in lams:
-        trs = [t for t in T.traces(lf) if live(t)]
+        trs = feasible([t for t in T.traces(lf) if live(t)])
         ctx.paths(rid, len(trs))
         bad = None; npark = ndel = 0
         void = 'void' in re.findall(r'queue<([^,>]*)', lf.get('inst') or '')[:1]
@@ -187,11 +320,34 @@ def pop_linear(ctx, db, rid, name, refill=False):
                inst=lf.get('inst'))
 
 
+def _fails_with_given(f, c):
+    """does this promise call fail the promise with an exception: set_exception(..), or - the same overload underneath - operator()(e) /
+    set_value(e) where e is the exception_ptr parameter of the analysed function and the promise does not carry exception_ptr values"""
+    cal = norm(c.get('callee') or '')
+    if cal == 'cocls::promise::set_exception':
+        return True
+    if cal not in ('cocls::promise::operator()', 'cocls::promise::set_value'):
+        return False
+    a = c.get('args') or []
+    if len(a) != 1 or 'exception_ptr' in (c.get('recv_type') or 'exception_ptr'):
+        return False
+    t = re.sub(r'\b(const|class|struct)\b|[&\s]', '', a[0].get('type') or '')
+    if t not in ('std::exception_ptr', 'std::__exception_ptr::exception_ptr'):
+        return False
+    pa = a[0].get('path') or ''
+    for _ in range(3):
+        m = re.fullmatch(r'(?:move|forward|ctor)\((.*)\)', pa)
+        if not m:
+            break
+        pa = m.group(1)
+    return any(pa == 'param:' + p_['name'] and 'exception_ptr' in (p_.get('type') or '') for p_ in f['params'])
+
+
 def unblock(ctx, db, rid, name, fld):
     ctx.rule(rid, 'COUNT', '%s: on the empty edge nothing happens and false is reported; otherwise exactly the oldest entry is taken (front() then one pop()) and exactly its promise is '
              'failed once with the given exception' % name.split('::', 1)[1], floor=1)
     for f, trs in traces_of(db, name, depth=0, per_instance=True):
-        trs = [t for t in trs if live(t)]
+        trs = feasible([t for t in trs if live(t)])
         ctx.paths(rid, len(trs))
         bad = None; n = 0
         for tr in trs:
@@ -216,7 +372,7 @@ def unblock(ctx, db, rid, name, fld):
                 n += 1
                 if len(fr) != 1 or len(pp) != 1 or tr.index(fr[0]) > tr.index(pp[0]):
                     bad = bad or ('the oldest entry is not removed exactly once (front %d, pop %d): %s' % (len(fr), len(pp), 'its item would be delivered later as a phantom' if not pp else 'another entry is lost'), tr)
-                if len(ex) != 1 or norm(ex[0].get('callee')) != 'cocls::promise::set_exception' or _own(ex[0]):
+                if len(ex) != 1 or not _fails_with_given(f, ex[0]) or _own(ex[0]):
                     bad = bad or ('not exactly the removed entry\'s promise is failed', tr)
         if n == 0 and not bad:
             bad = ('no non-empty edge', trs[0] if trs else [])
@@ -238,7 +394,7 @@ def nonempty(ctx, db, rid, classes):
         if not f0.get('lambda') and f0.get('access') != 0 and [c for c in callers_of(db, f0['nname']) if c.startswith('cocls::queue') or c.startswith('cocls::limited_queue')]:
             continue        # a non-public helper: its accesses are judged inside its callers (it is expanded there)
         for f in db.instances(key):
-            trs = T.traces(f)
+            trs = feasible(T.traces(f))
             uses = [it for tr in trs for it in tr if it.k == 'call' and norm(it.get('field') or '') in (ITEMS, WAITERS, BLOCKED) and op(it) in ACCESS and not it.get('expanded')]
             if not uses:
                 continue
